@@ -257,6 +257,68 @@ theorem toi_success_iff (s : CStr) (base : Nat) (hb : validBase base = true) (v 
         subst e
         exact absurd ⟨h1, h2⟩ hr
 
+/-- what the property itself demands of `tol`/`toll` (the sentinel rejection is the library's
+documented extra, not a demand): a success carries the exact in-range value of a single
+numeral, and every single numeral whose value is in the range of `long` and is not one of the two
+sentinels is accepted -/
+theorem tol_sound_complete (s : CStr) (base : Nat) (hb : validBase base = true) (v : Int) :
+    (strTol s base = .ok (some v) → refParse LONG_MIN LONG_MAX s base = some v) ∧
+    (refParse LONG_MIN LONG_MAX s base = some v → v ≠ LONG_MAX → v ≠ LONG_MIN →
+      strTol s base = .ok (some v)) := by
+  rw [strTol_eq s base hb]
+  unfold refParse LONG_MAX LONG_MIN
+  cases hn : numeralValue base (stripBlanks s) with
+  | none => simp
+  | some w =>
+    simp only
+    constructor
+    · intro h
+      injection h with h
+      by_cases hr : -9223372036854775808 + 1 ≤ w ∧ w ≤ 9223372036854775807 - 1
+      · rw [if_pos hr] at h
+        injection h with h
+        subst h
+        rw [if_pos (by omega)]
+      · rw [if_neg hr] at h; cases h
+    · intro h h1 h2
+      by_cases hr : -9223372036854775808 ≤ w ∧ w ≤ 9223372036854775807
+      · rw [if_pos hr] at h
+        injection h with h
+        subst h
+        rw [if_pos (by omega)]
+      · rw [if_neg hr] at h; cases h
+
+/-- the same for `toul`/`toull` and their sentinel `ULONG_MAX` -/
+theorem toul_sound_complete (s : CStr) (base : Nat) (hb : validBase base = true) (v : Nat) :
+    (strToul s base = .ok (some v) → refParse 0 (ULONG_MAX : Int) s base = some (v : Int)) ∧
+    (refParse 0 (ULONG_MAX : Int) s base = some (v : Int) → v ≠ ULONG_MAX →
+      strToul s base = .ok (some v)) := by
+  unfold strToul
+  rw [strToUnsigned_eq (ULONG_MAX - 1) (Nat.le_refl _) s base hb]
+  unfold refParse ULONG_MAX
+  cases hn : numeralValue base (stripBlanks s) with
+  | none => simp
+  | some w =>
+    simp only
+    constructor
+    · intro h
+      injection h with h
+      by_cases hr : 0 ≤ w ∧ w ≤ ((18446744073709551615 - 1 : Nat) : Int)
+      · rw [if_pos hr] at h
+        simp only [Option.map_some, Option.some.injEq] at h
+        rw [if_pos (by omega)]
+        congr 1
+        omega
+      · rw [if_neg hr] at h; simp at h
+    · intro h h1
+      by_cases hr : 0 ≤ w ∧ w ≤ ((18446744073709551615 : Nat) : Int)
+      · rw [if_pos hr] at h
+        injection h with h
+        subst h
+        rw [if_pos (by omega)]
+        simp
+      · rw [if_neg hr] at h; cases h
+
 /-- the scanning half of the theorem: `strtol`/`strtoul` (as specified) find a numeral exactly
 when the stripped string is one -/
 theorem strtol_scan_spec (s : CStr) (base : Nat) (hb : validBase base = true) :
